@@ -488,12 +488,24 @@ def gen_programs(env, rng):
 
 # ---------------------------------------------------------------- part 1 driver
 
-def check_runs(ctx, env, case, runs, label, old=False):
+class Batch(object):
+    """driver requests are collected and sent in few subprocess calls (starting the driver is the expensive part)"""
+    def __init__(self, ctx):
+        self.ctx = ctx; self.items = []
+    def add(self, req, fn):
+        self.items.append((req, fn))
+        if len(self.items) >= 1500: self.flush()
+    def flush(self):
+        items, self.items = self.items, []
+        if not items or not self.ctx.driver.ok: return
+        outs = self.ctx.driver('C22', [r for r, _ in items])
+        for (_, fn), o in zip(items, outs): fn(o)
+
+
+def check_runs(ctx, batch, env, case, runs, label, old=False):
     """tie (driver) + oracle for a list of real runs of one case"""
     desc = case.describe()
-    reqs = [case.model_request(tr['picks'], old) for tr in runs]
-    mouts = ctx.driver('C22', reqs) if ctx.driver.ok else [None] * len(reqs)
-    for tr, mout in zip(runs, mouts):
+    for tr in runs:
         inp = {'progs': desc, 'picks': tr['picks'], 'old_code_emulation': old}
         nacc = len(tr['picks'])
         ctx.case(inp, nontrivial=nacc > 2, kind=label)
@@ -507,43 +519,45 @@ def check_runs(ctx, env, case, runs, label, old=False):
                 ctx.violation('a thread running concurrently with others got a result different from the one it gets alone '
                               '(shared translator cache interference)', inp, observed=b, expected='the result of the solo run',
                               key='translator-cache:%s:%s' % (b.get('shape'), kind))
-        if mout is not None:
+        def on_model(mout, tr=tr, inp=inp):
             for s in mout.get('steps', []):
                 for o in s['outs']: ctx.count('model-out:' + o)
             d = compare(env, case, tr, mout, old)
             if d is not None:
                 ctx.divergence('model and real Pony disagree (%s): %s' % ('old-code emulation' if old else 'current code', d['what']),
                                inp, model=d.get('model'), impl={k: v for k, v in d.items() if k not in ('model', 'what')})
+        batch.add(case.model_request(tr['picks'], old), on_model)
 
 
-def check_case_static(ctx, env, case, label):
+def check_case_static(ctx, batch, env, case, label):
     """solo runs are sane; the specification function soloPins equals the real pinned values of the solo runs"""
     for p in case.problems:
         ctx.divergence('case construction: ' + p, case.describe())
-    if not ctx.driver.ok: return
-    outs = ctx.driver('C22', case.solo_requests())
     flat = [x for sp in case.solo_pinned for x in sp if x is not None]
-    for r, o, real in zip(case.solo_requests(), outs, flat):
-        ctx.count('soloPins:%d-pinned' % len(real))
-        if o.get('solo') != real:
-            ctx.divergence('soloPins differs from fixed_param_values of the solo run', {'key': r['key'], 'vars': r['vars'], 'progs': case.describe()},
-                           model=o, impl=real)
+    for r, real in zip(case.solo_requests(), flat):
+        def on_model(o, r=r, real=real):
+            ctx.count('soloPins:%d-pinned' % len(real))
+            if o.get('solo') != real:
+                ctx.divergence('soloPins differs from fixed_param_values of the solo run', {'key': r['key'], 'vars': r['vars'], 'progs': case.describe()},
+                               model=o, impl=real)
+        batch.add(r, on_model)
 
 
 def part1(ctx, env):
+    batch = Batch(ctx)
     limit = ctx.scale(150, 3000)
     for name, progs in template_programs():
         case = Case(env, progs)
-        check_case_static(ctx, env, case, name)
+        check_case_static(ctx, batch, env, case, name)
         runs = list(explore(env, progs, limit))
         ctx.count('template:%s:schedules' % name, len(runs))
-        check_runs(ctx, env, case, runs, 'exhaustive:' + name)
+        check_runs(ctx, batch, env, case, runs, 'exhaustive:' + name)
     # the Lean witness (Props/C22.lean wProgs / wSched) on the real threads: current code, then old-code emulation
     wprogs = [[rq('r_stop', n=1), rq('r_stop', n=2)], [rq('r_stop', n=3)]]
     wsched = [0, 0, 0, 1, 1, 0, 0, 1]     # the model's wSched with the thread-local steps merged into the accesses
     case = Case(env, wprogs)
     tr = run_real(env, wprogs, picks_chooser(wsched))
-    check_runs(ctx, env, case, [tr], 'witness-current')
+    check_runs(ctx, batch, env, case, [tr], 'witness-current')
     if [a and (a['op'], a['found']) for a in tr['accesses']][:6] != [('get', False), ('set', True), ('get', True), ('get', True), ('pop', True), ('pop', False)]:
         ctx.divergence('the witness schedule no longer reaches the pop of a missing key on the real code', {'picks': tr['picks']}, impl=tr['accesses'])
     else: ctx.count('witness:pop-of-missing-key-reached')
@@ -554,10 +568,10 @@ def part1(ctx, env):
         if 'KeyError' not in errs:
             ctx.divergence('old-code emulation: the witness schedule did not raise KeyError', {'picks': tr['picks']}, impl=tr['outs'][0]['results'])
         else: ctx.count('witness:old-code-KeyError-reproduced')
-        check_runs(ctx, env, case, [tr], 'witness-old', old=True)
+        check_runs(ctx, batch, env, case, [tr], 'witness-old', old=True)
         for name, progs in template_programs()[:4]:
             c2 = Case(env, progs)
-            check_runs(ctx, env, c2, list(explore(env, progs, ctx.scale(60, 600))), 'old-emulation:' + name, old=True)
+            check_runs(ctx, batch, env, c2, list(explore(env, progs, ctx.scale(60, 600))), 'old-emulation:' + name, old=True)
     finally:
         env.del_mode = False
     # random programs, random schedules
@@ -567,9 +581,10 @@ def part1(ctx, env):
         case = Case(env, progs)
         if case.problems and any('solo request failed' in p for p in case.problems):
             ctx.count('random:solo-failure-skipped'); continue
-        check_case_static(ctx, env, case, 'random')
+        check_case_static(ctx, batch, env, case, 'random')
         runs = [run_real(env, progs, random_chooser(ctx.rng, ctx.rng.choice([0.0, 0.3, 0.6]))) for _ in range(ctx.scale(4, 10))]
-        check_runs(ctx, env, case, runs, 'random')
+        check_runs(ctx, batch, env, case, runs, 'random')
+    batch.flush()
 
 
 # ---------------------------------------------------------------- part 2: every shared cache (oracle only)
@@ -802,7 +817,9 @@ def replay_input(ctx, env, inp):
         env.del_mode = old
         try: tr = run_real(env, progs, picks_chooser(inp['picks']))
         finally: env.del_mode = False
-        check_runs(ctx, env, case, [tr], 'replay', old=old)
+        batch = Batch(ctx)
+        check_runs(ctx, batch, env, case, [tr], 'replay', old=old)
+        batch.flush()
 
 
 def replay(ctx, data):
